@@ -87,6 +87,13 @@ CLAIMED["C06"] = dict(
    note="Runs in a worker process (embeds the command decoder). Codes the record cannot express are outside the domain.",
    design="§3 C06")
 
+CLAIMED["C01"] = dict(
+   technique="property-based testing: stateful/model-based over generated frame histories; renderer commands executed on a reference terminal screen; ground-truth display oracle + differential oracle against a fresh renderer on a blank screen",
+   level="exploration",
+   text="~1M histories per quick run of paint/frame/no-frame/clear/dropped-frames/re-create over small terminals with narrow and wide characters, coloured blank runs, pool images (same Arc reused) and glyphs; after every delivered frame the reference screen must show exactly the surface and must equal a from-scratch repaint.",
+   note="Reference screen semantics (wide-character halves, ECH with current face, images above text) are the trusted base; z-order among overlapping images and a wide character half under an image are treated as terminal specific. Two design limits are listed as known findings.",
+   design="§3 C01")
+
 NOT_APPLICABLE = {}
 
 def main():
